@@ -341,6 +341,16 @@ def _(c):
     c.modifies("self.expr", "self.tokens.left", "self.tokens.right", "self.tokens.left[]", "self.tokens.right[]")   # nothing else is carried from one solve to the next
 
 
+@contract(f"{ES}.solve", ["C01", "C02"], name="ExpressionSolver.solve[division-by-zero]")
+def _(c):
+    c.bound = "expressions whose evaluation divides by zero (literal zero, a difference that vanishes), at top level and inside parentheses"
+    for text in ["1/0", "a / 0", "2*(3/(1-1))+1", "a / (b - b)", "(a + b) / (d * 0)"]:
+        c.scenario(text, _solve_pre(text))
+    c.requires("all([env[n] > 0 for n in env])")
+    c.raises("True", label="refused-with-an-error")
+    c.modifies("self.expr", "self.tokens.left", "self.tokens.right", "self.tokens.left[]", "self.tokens.right[]")   # and nothing process-wide (numpy's error mode included)
+
+
 # C02: whatever an earlier solve left in the instance (any tokens in either buffer, any previous expression) has
 # no influence on the outcome.  The pre-state below is an arbitrary "dirty" instance.
 JUNK = [([], []), (["A"], []), ([], ["A"]), (["A", "OperatorAdd"], ["A"]), (["OperatorPar"], ["OperatorMul", "A"]), (["A", "A"], ["A", "A"]),
